@@ -867,6 +867,10 @@ func genStrExpr(r *rng, depth int) string {
 	case 11:
 		return "lower-case(" + arg() + ")"
 	case 12:
+		// the separator may itself be a flat node-set (its first node's string-value)
+		if r.chance(1, 3) {
+			return "string-join(" + genFlatPath(r) + ", " + genFlatPath(r) + ")"
+		}
 		return "string-join(" + genFlatPath(r) + ", " + genStrLit(r) + ")"
 	default:
 		return "string(" + arg() + ")"
